@@ -114,6 +114,14 @@ func credLines(class string) []string {
 		return []string{pa("Basic " + b64(pipeUser+":SECRET"))}
 	case "emptyPass":
 		return []string{pa("Basic " + b64(pipeUser+":"))}
+	case "colonShiftLeft": // user "use", password "rsecret"
+		return []string{pa("Basic " + b64(pipeUser[:len(pipeUser)-1]+":"+pipeUser[len(pipeUser)-1:]+pipePass))}
+	case "colonShiftRight": // user "users", password "ecret"
+		return []string{pa("Basic " + b64(pipeUser+pipePass[:1]+":"+pipePass[1:]))}
+	case "colonFirst":
+		return []string{pa("Basic " + b64(":"+pipeUser+pipePass))}
+	case "colonLast":
+		return []string{pa("Basic " + b64(pipeUser+pipePass+":"))}
 	case "extraColon":
 		return []string{pa("Basic " + b64(pipeUser+":"+pipePass+":"))}
 	case "bearer":
